@@ -1394,7 +1394,7 @@ PROPS['C01'] = dict(
                              'Flac.C01.lpc_restores', 'Flac.C01.fixed_restores', 'Flac.C01.wasted_restores', 'Flac.C01.recorrelate_stereo',
                              'Flac.C01.lossless_independent', 'Flac.C01.lossless_stereo',
                              'Flac.C01.declared_total_decodes_all', 'Flac.C01.stream_of_frames_lossless', 'Flac.C14.interrupted_decodes_complete_frames',
-                             'Flac.C01.file_head_roundtrip', 'Flac.C01.file_lossless'],
+                             'Flac.C01.file_head_roundtrip', 'Flac.C01.file_lossless', 'Flac.C07.loop_refines'],
     components=[EncFrame('roundtrip'), RoundTripFile()],
     rule='encframe: every length 1..48 (quick) / 1..96 (thorough) x 11 signal shapes x mono/stereo x 6 option sets, plus random '
          '(channels 1-8, depth in the subset codes, lengths around powers of two and block-size codes, all option dimensions); every frame the real '
@@ -1414,7 +1414,8 @@ PROPS['C01'] = dict(
           'sequence, is decoded by the file readers\' model fileDecode - fLaC tag, block walk, STREAMINFO, frame loop - to exactly the frames\' samples with that STREAMINFO (file_head_roundtrip for the head). '
           'frameWfB_sound: the executable test the driver runs on real encoder output implies the hypothesis. Plus the mechanism theorems '
           'stereo_*_inverse, wasted_inverse, predict_restore, layout_agree, rice_fold_*/fold_unfold.',
-    note='The reader front-ends above the frame loop (C07, tied to the loop by C07.loop_refines) and the MD5 are not composed into the file-level theorem; '
+    note='The reader front-ends above the frame loop (C07; loop_refines: their abstract decoder Dec.readFrame is the byte-level frame loop seen frame by frame - same frames, same stop '
+         'reason) and the MD5 are not composed into the file-level theorem; '
          'depth-32 stereo (the 33-bit side channel) is proved only at kernel level (C03 wide_*); the choice logic of the encoder (which candidate wins) is '
          'universally quantified, never modelled: that the real encoder emits a frame of the proved domain is checked per generated frame (frameWfB + re-serialization).',
     trusted_base=COMMON_TRUST,
@@ -1470,10 +1471,10 @@ PROPS['C19'] = dict(
 )
 
 PROPS['C07'] = dict(
-    module='FlacModel.Props.C07b',
+    module='FlacModel.Props.C07',
     theorems=['Flac.C07.readFrame_good', 'Flac.C07.step_exact', 'Flac.C07.reader_exactly_once', 'Flac.C07.fresh_reader_prefix',
               'Flac.C07.eos_idempotent', 'Flac.C07.eos_only_at_end', 'Flac.C07.byte_eq_serialised_samples', 'Flac.C07.chan_eos_idempotent',
-              'Flac.C07.chanStep_exact', 'Flac.C07.chan_reader_exactly_once', 'Flac.C07.fresh_chan_reader_prefix', 'Flac.C07.loop_refines'],
+              'Flac.C07.chanStep_exact', 'Flac.C07.chan_reader_exactly_once', 'Flac.C07.fresh_chan_reader_prefix'],
     components=[ReaderHist('noseek')],
     rule='12 (quick) / 80 (thorough) files written by the real encoder (1-8 channels, depths 4-32, non-periodic noise, short final blocks, declared and '
          'undeclared totals) x random histories over read(n)/fill/consume(k)/iterate on the byte, sample, iterator and channel readers, both byte orders, '
@@ -1485,8 +1486,8 @@ PROPS['C07'] = dict(
           'chan_eos_idempotent: once nothing remains every further call signals end again; eos_only_at_end: an empty read means everything was delivered; '
           'byte_eq_serialised_samples: byte stream = sample stream serialised at ceil(depth/8) bytes. chan_reader_exactly_once: for EVERY history of fill_buf/consume on the '
           'per-channel reader over rectangular frames and EVERY channel, what left the reader followed by what it still holds is that channel of the whole decoded stream '
-          '(the de-interleaved samples). loop_refines: the abstract decoder of these state machines (Dec.readFrame over a frame list) is the byte-level frame loop (decodeLoop) seen frame by frame - '
-          'same frames delivered, same stop reason (end at the declared total, TooManySamples, ShortBlock, end of data).',
+          '(the de-interleaved samples). (That the abstract decoder of these state machines - Dec.readFrame over a frame list - is the byte-level frame loop seen frame by frame is '
+          'C07.loop_refines, listed under C01 so that this property\'s theorems do not import the byte-level decoder.)',
     note='Independence from how the source fragments its reads is a property of the model by construction (it never sees read boundaries) and is '
          'exhibited for the implementation by fragmenting sources; BufReader/read_exact are trusted.',
     trusted_base=COMMON_TRUST,
@@ -1628,7 +1629,7 @@ PROPS['C17'] = dict(
               'Flac.C17.predictGo_length', 'Flac.C17.struct_expand_len',
               'Flac.C17.parse_reserializes', 'Flac.C17.struct_parse_reserializes', 'Flac.C17.parse_agrees_with_decoder',
               'Flac.C17.decoder_accepts_implies_parser', 'Flac.parseFrame_serialize', 'Flac.readHeaderFields_sound', 'Flac.readSubframe_sound', 'Flac.readResidual_sound',
-              'Flac.crc8_pins', 'Flac.crc16_pins', 'Flac.C01.frame_roundtrip'],
+              'Flac.crc8_pins', 'Flac.crc16_pins', 'Flac.decodeFrame_serialize'],
     components=[StructCmp()],
     rule='900 (quick) / 40000 (thorough) valid frames and as many checksum-consistent malformed frames from the Lean generators, each given to stream::Frame::read_subset (+ write_subset '
          'and Subframe::decode) and to the streaming decoder; compared: accept/reject, expansion lengths, samples after undoing decorrelation (with the decoder\'s arithmetic width), and '
@@ -1637,7 +1638,7 @@ PROPS['C17'] = dict(
           'unread rest - for readU/readS/unary/Rice/partitions/residual/subframes of all four kinds/coded number/header; CRC pinning crc8_pins/crc16_pins: remainder 0 forces the stored checksum, '
           'over the tables regenerated from crc.rs): for EVERY byte string, whatever the structural parser accepts with valid checksums is a well-formed frame whose serialization is exactly the bytes consumed. '
           'parse_agrees_with_decoder: its samples (after undoing decorrelation) are what the streaming decoder returns for the same bytes, with the same extent, whatever follows the frame '
-          '(through C01.frame_roundtrip and frame locality). decoder_accepts_implies_parser: every frame the streaming decoder accepts the structural parser accepts, same header, extent and checksum verdicts. '
+          '(through decodeFrame_serialize = C01.frame_roundtrip and frame locality). decoder_accepts_implies_parser: every frame the streaming decoder accepts the structural parser accepts, same header, extent and checksum verdicts. '
           'layouts_agree: for EVERY block size, predictor order and partition order the two parsers slice the residuals identically and refuse the same orders (both layout rules are '
           'extracted from the source); struct_expand_len: every accepted subframe expands to exactly block-size samples.',
     note='The model serializer re-emits the stored coded-number length and padding bits, so the theorem needs no minimal-number/zero-padding caveat; the crate\'s writer always emits the minimal number and zero '
